@@ -59,6 +59,12 @@ def make_solver(case_fam, gseed):
     if len(at0.cells) > 25:
         from fv.gen import tissue
         at0 = at0.sub(tissue.random_connected_subset(rng, at0, int(rng.integers(8, 25))))
+    if gseed[2] % 4 == 1:
+        # a lens-shaped cell (two junctions): two different interfaces join the same pair of junctions
+        from fv.gen import tissue
+        lens = tissue.with_lens(np.random.default_rng(gseed + [7]), at0)
+        if lens is not None:
+            at0 = lens
     nfr = int(rng.integers(3, 5))
     ats = dyn.random_series(rng, at0, nfr, frac=0.5)
     # segmentation-like noise on the interior points: the two circle fits then differ materially, as on real data
